@@ -83,6 +83,12 @@ func splitReads(tail string) (string, []string) {
 func (e *SpecEnv) readsArgs(sf *SpecFn, n *SpecEnv) (sorts, terms []string) {
 	fc := e.fc
 	for _, name := range sf.Reads {
+		if strings.HasPrefix(name, "reach(") && strings.HasSuffix(name, ")") {
+			// `reads reach(T)`: every component a type-safe function can reach through a value of type T (ext_reach.go)
+			rs, rt := e.reachArgs(sf, name[len("reach("):len(name)-1], n)
+			sorts, terms = append(sorts, rs...), append(terms, rt...)
+			continue
+		}
 		if strings.HasSuffix(name, "[..]") {
 			// `reads p[..]`: only the element block of the slice parameter p (finer than the whole component of its element
 			// type: blocks allocated later by the caller do not disturb the value of the function)
